@@ -19,6 +19,7 @@ from __future__ import annotations
 import contextlib
 import gc
 import io
+import os
 import sys
 import weakref
 from typing import Any, Dict, List, Optional, Tuple
@@ -175,6 +176,50 @@ def twin_case(pi: int, ri: int, k: Any, reps: int, mode: int, via: int = 0) -> D
     return {"ok": why is None, "why": why, "hit": obs["hit"]}
 
 
+OB_IMPORT = "C06.type-discovery helpers created while the library is imported are finished, not left half-run"
+_IMPORT_PROBE = r"""
+import gc, sys, warnings
+seen = {"first": [], "final": []}
+def _name(ag):
+    code = getattr(ag, "ag_code", None)
+    return (getattr(code, "co_filename", "?"), getattr(ag, "__qualname__", "?"))
+sys.set_asyncgen_hooks(firstiter=lambda ag: seen["first"].append(_name(ag)), finalizer=lambda ag: seen["final"].append(_name(ag)))
+warnings.simplefilter("error")            # 'coroutine ... was never awaited', ResourceWarning, ...
+sys.path.insert(0, sys.argv[1])
+import stackscope
+def g():
+    yield 1
+x = g(); next(x)
+stackscope.extract(x)                      # runs every pending piece of built-in glue
+del x
+for _ in range(3):
+    gc.collect()
+mine = [n for n in seen["final"] if "stackscope" in n[0] and "_tests" not in n[0]]
+if mine:
+    print("FINALIZER-SAW", mine)
+print("DONE", len(seen["first"]), len(seen["final"]))
+"""
+
+
+def import_case() -> Optional[str]:
+    """A fresh interpreter in which asynchronous-generator hooks are installed BEFORE stackscope is imported (as when it
+    is first imported from inside a running event loop): nothing the library creates for itself may reach the
+    finalizer hook or trigger a 'never awaited' / resource warning."""
+    import subprocess
+
+    repo = os.environ.get("VERIF_REPO", "/repo")
+    r = subprocess.run([sys.executable, "-X", "dev", "-c", _IMPORT_PROBE, repo], capture_output=True, text=True, timeout=120,
+                       env={k: v for k, v in os.environ.items() if k != "PYTHONPATH"})
+    out = r.stdout + r.stderr
+    if "FINALIZER-SAW" in out:
+        return "an async generator created by the library for itself was left unfinished: " + out.split("FINALIZER-SAW", 1)[1].splitlines()[0][:200]
+    if r.returncode != 0 or "DONE" not in r.stdout:
+        return f"importing and using the library in a fresh interpreter with warnings as errors failed: {out[-300:]}"
+    if "Warning" in r.stderr:
+        return f"warning while importing / first use: {r.stderr[-300:]}"
+    return None
+
+
 def _shard(sh: Dict[str, Any]) -> Dict[str, Any]:
     from vlib.bc import dyn
 
@@ -221,9 +266,17 @@ def run(rep: Any, tier: str, seed: int) -> None:
     res = par.run_shards("harness.c06", "_shard", [{"prog": i} for i in range(n)])
     for c in par.fold(rep, OB, res):
         rep.counterexample(OB, c, c["why"])
+    # one deterministic scenario, no symbolic input: the helpers of glue_builtins (anchor: _glue.py type discovery)
+    why = import_case()
+    rep.add_counts(OB_IMPORT, 1, 0, reached=1)
+    if why:
+        rep.counterexample(OB_IMPORT, {"import_leg": True, "why": why}, why)
 
 
 def replay(c: Dict[str, Any]) -> Dict[str, Any]:
+    if c.get("import_leg"):
+        why = import_case()
+        return {"status": "reproduces" if why else "not-reproduced", "detail": why}
     r = twin_case(c["prog"], c["run"], c["k"], c["reps"], c["mode"], c.get("via", 0))
     return {"status": "reproduces" if not r["ok"] else "not-reproduced", "detail": r}
 
